@@ -81,6 +81,9 @@ def run_case(sd, steps, cfg, fault, tag):
     return out["results"], d
 
 
+RECORDED = []     # fault-free recorded runs, validated against Durability.tla (see checks/c01.py protocol_conformance)
+
+
 def explore(ck, hi, hist, cfg, tier, rng, live_trace, rec_trace, counters, plans_override=None, bad_override=None):
     sd = os.path.join(scratch(), "c03.h%d" % hi)
     shutil.rmtree(sd, ignore_errors=True)
@@ -92,7 +95,9 @@ def explore(ck, hi, hist, cfg, tier, rng, live_trace, rec_trace, counters, plans
     rc, out = cl.run_history(hp, cfg, os.path.join(sd, "rec"), logp=rlog)
     if rc != 0:
         raise vlib.ToolError("record run failed")
-    entries = [e for e in cl.read_log(rlog) if e["op"] not in ("mark", "KILLED")]
+    raw = cl.read_log(rlog)
+    RECORDED.append(("history %d" % hi, cfg, steps, raw))
+    entries = [e for e in raw if e["op"] not in ("mark", "KILLED")]
     cnt = lambda k: sum(1 for e in entries if e["op"] == k)
     counts = {"NWrite": cnt("write"), "NFsync": cnt("fsync"), "NFdatasync": cnt("fdatasync"), "NRename": cnt("rename"),
               "NCreate": cnt("create") + cnt("create_trunc"), "NDirsync": cnt("dirsync")}
@@ -227,6 +232,13 @@ def run(tier):
     live_trace, rec_trace, counters = [], [], {}
     for hi, h in enumerate(r.json_lines):
         explore(ck, hi, h, pick_cfg(rng, hi + seed()), tier, rng, live_trace, rec_trace, counters)
+    import durtrace
+    res = durtrace.validate(ck, RECORDED, CONSTS["NI"], CONSTS["NV"])
+    for tag, (ok, got, total, nxt, problems, viol) in sorted(res.items()):
+        if not ok:
+            ck.drift("protocol trace of the fault-free run of %s is not a behaviour of Durability.tla: %d of %d events matched; next event %s %s"
+                     % (tag, got, total, json.dumps({k: v for k, v in (nxt or {}).items() if v not in (0, "", [])}), "; ".join(problems[:2])))
+    counters["protocol_traces_accepted_by_Durability_tla"] = sum(1 for v in res.values() if v[0])
     return judge(ck, live_trace, rec_trace, counters)
 
 
